@@ -25,7 +25,13 @@
       Hypothesis for the last conjunct of the third clause only: the anonymous callback is not an
       ast.Signal (`isSignal = false`; it is an ast.Callback by construction of the AST) — pass 3
       re-analyses signals after it looked at the fields.
-    * AST invariants assumed from the earlier passes: none in the theorems (the model takes the
+    * C05_accessors (setter / getter and set-property / get-property stay consistent through the
+      property analysis): the property names of a class are distinct; a property that is already
+      non-introspectable when the pass starts carries no accessor; the agreement holds when the
+      pass starts (it is established by MainTransformer._pair_property_accessors, which is not
+      modelled: on the real output the clause is judged by `girWellFormed`).
+      C05_accessors_cleared needs no hypothesis.
+    * Other AST invariants assumed from the earlier passes: none in the theorems (the model takes the
       looked-up target kind of a reference into an included namespace as data: `Ty.ext`).
 -/
 import GIVerif.Lemmas.Introspectable
